@@ -25,7 +25,7 @@ ISSUE_CODES = [
     (r"has no type|has no .* type|type .* is not|std::vector<>", "member-without-type"),
     (r"equals casts to|casts to", "type-name-mangled-in-boilerplate"),
     (r"object decode initialises", "go-object-decode-wrong-member"),
-    (r"is not a member|are undeclared identifiers|names? .* but members|members .* vs", "boilerplate-names-non-member"),
+    (r"is not a member|are undeclared identifiers|names? .* but members|compares .* but members|members .* vs", "boilerplate-names-non-member"),
     (r"class name .* declared \d+ times|declared twice|duplicate member", "duplicate-declaration"),
     (r"empty body|invalid Python", "python-empty-body"),
     (r"constructor", "go-constructor-shape"),
@@ -35,7 +35,7 @@ ISSUE_CODES = [
     (r"length patch", "length-patch-shape"),
     (r"match arm", "rust-match-arm-shape"),
     (r"indent", "python-indentation"),
-    (r"key", "factory-key-shape"),
+    (r"registration key|key type|keyed by|factory key|match key|key parameter|registration cast| key$|\bkey\b.*registered", "factory-key-shape"),
 ]
 
 
@@ -295,7 +295,7 @@ def zchar_rewrite(p, rng):
     """zchar[n] <-> char[n] with explicit NUL right padding (top-level fields only: attributes are not allowed in inline objects)"""
     for pk in p["packets"]:
         for f in pk["fields"]:
-            if f["kind"] == "fixed" and f["z"] and rng.random() < 0.8:
+            if f["kind"] == "fixed" and f["z"] and not f.get("pad") and rng.random() < 0.8:
                 f["z"] = False
                 f["pad"] = ("right", "'\\x00'")
     return p
